@@ -306,3 +306,17 @@ HARNESSES = [
             rule="non-trivial = the placeholder has tags", describe=run_placeholder),
 ]
 OUTSIDE = ["histories longer than the bound; more than two distinct tags (unbounded tag sets are the subject of the E2 lemmas)"]
+
+
+def e2_lemmas(tier):
+    """E2 (zproxy): the same real functions on proxies carrying SMT terms - unbounded tag sets / strings."""
+    from vf import e2
+    return e2.summarise(e2.c17_lemmas())
+
+
+def e2_replay(name, model):
+    from vf import e2
+    for l in e2.c17_lemmas():
+        if l["name"] == name:
+            return l["verdict"] != "REFUTED", l
+    return True, {"note": "lemma not found"}
